@@ -201,6 +201,49 @@ class Kind:
         return out
 
 
+def sample_value(dom):
+    """one fixed in-domain encoded value (not the usual default) for a domain; None when there is none"""
+    d = dom.get("d")
+    if d == "int":
+        return dom["lo"] + max(1, (dom["hi"] - dom["lo"]) // 3)
+    if d == "len":
+        return L(dom["lo"] + max(1, (dom["hi"] - dom["lo"]) // 3))
+    if d == "float":
+        return round(dom["lo"] + (dom["hi"] - dom["lo"]) / 3.0, 2)
+    if d == "bool":
+        return True
+    if d == "enum":
+        ms = enum_members(dom["e"], dom.get("exclude", ()))
+        return E(dom["e"], ms[len(ms) // 2]) if ms else None
+    if d == "str":
+        return "companion"
+    if d == "rgb":
+        return RGB("C01020")
+    if d == "union":
+        for x in dom["of"]:
+            v = sample_value(x)
+            if v is not None:
+                return v
+    return None
+
+
+# pairs (acting kind, companion kind) built by the same builder on the same anchor shape whose settings the
+# documentation treats as independent: assignments to the first must leave every reading of the second alone
+COMPANIONS = [
+    ("color-fill-rgb", "color-line"), ("color-line", "color-fill-rgb"), ("fill-patterned", "color-line"),
+    ("fill-gradient", "color-line"), ("line", "color-fill-rgb"), ("autoshape", "color-fill-rgb"),
+    ("shadow", "color-line"), ("color-fill-theme", "line"),
+    ("font-run", "paragraph"), ("paragraph", "font-run"), ("color-font", "font-run"), ("textframe", "paragraph"),
+    ("chart", "category-axis"), ("chart", "value-axis"), ("category-axis", "value-axis"), ("value-axis", "category-axis"),
+    ("legend", "value-axis"), ("bar-plot", "datalabel-point"), ("bar-plot", "bar-series"),
+    ("datalabels-plot", "datalabel-point"), ("font-chart", "font-ticklabels"), ("font-ticklabels", "font-chart"),
+    ("ticklabels-category", "ticklabels-value"), ("chart-title", "axis-title"), ("axis-title", "chart-title"),
+    ("chart", "axis-title"), ("value-axis", "chart-title"),
+    ("table", "cell"), ("cell", "color-cell"), ("color-cell", "cell"),
+    ("line-plot", "marker-line-fmt"), ("line-series", "marker-line-fmt"),
+]
+
+
 # ------------------------------------------------------------------------------------ paths
 
 
